@@ -259,6 +259,7 @@ class Gen:
         self.t = 0               # last run instant (even)
         self.logger = logger
         self.allow_var = rng.random() < 0.2   # Max/Min timers only in a fifth of the programs (order ambiguity)
+        self.reent = 0           # > 0 while generating a body that can be executed more than once (Fwd targets)
         self.stats = dict()
 
     def st(self, k):
@@ -333,6 +334,9 @@ class Gen:
                 ("term", w["term"]), ("own", w["own"]), ("ret", w["ret"]), ("fwd", w["fwd"]),
                 ("log", w["log"] if core and self.logger else 0), ("time", w["time"] if core else 0),
                 ("vol", w["vol"] if depth <= 1 and core else 0)]
+        if self.reent:
+            # static ids (actors, rets, fwds, tokens) must be created at most once: nothing id-creating here
+            fams = [(f, x) for f, x in fams if f in ("queue", "timer", "call", "term", "log", "time")]
         fam = r.choices([f for f, _ in fams], [x for _, x in fams])[0]
         self.st(fam)
         return getattr(self, "g_" + fam)(ctx, depth, scope)
@@ -453,7 +457,7 @@ class Gen:
         r = self.r
         h = self.pick(["own", "act"], scope)
         if h is None:
-            return self.g_actor(ctx, depth, scope) if ctx != "none" else None
+            return self.g_actor(ctx, depth, scope) if ctx != "none" and not self.reent else None
         a = self.handles[h][1]
         if r.random() < 0.1:
             return ("callprep", h, r.random() < 0.5, self.clo(("prep", a), depth, scope, caps=[]))
@@ -589,14 +593,18 @@ class Gen:
         # bodies may only use forwarders created before this one (they are generated before it is registered)
         if ht is None or r.random() < 0.5:
             inner = []
+            self.reent += 1
             body = self.acts("none", depth + 2, inner, n=r.randrange(0, 3))
+            self.reent -= 1
             for x in inner:
                 self.gone(x)
             h = self.mk(scope, "fwd0", f)
             act = ("newfwd", h, f, ("clos", body))
         else:
             a = self.handles[ht][1]
+            self.reent += 1
             cl = self.clo(("meth", a), depth + 1, [], caps=[])
+            self.reent -= 1
             h = self.mk(scope, "fwd", f)
             act = ("newfwd", h, f, ("to", ht, cl))
         if scope is None and r.random() < 0.4:
@@ -765,7 +773,7 @@ def canon(lines, drop_log=False):
     for l in lines:
         if l.startswith("~"):
             continue
-        if drop_log and (l.startswith("log ") or l.startswith("bool 5 ")):
+        if drop_log and l.split(" ", 1)[0] in ("log", "logreq", "logcheck", "setlogger", "setfilter"):
             continue
         if l.startswith("leak "):
             ws = l.split()
